@@ -62,7 +62,9 @@ def run_case(case):
     top = os.path.join(seams.scratch_dir('c10'), 't')
     shutil.rmtree(top, ignore_errors=True)
     d = os.path.join(top, rng.choice(['dir', 'dir', 'case_%08X' % rng.choice(eids + [0x5EEEEEEE, 0x00001235]),
-                                      '%08X' % rng.choice(eids + [0x5EEEEEEE]), 'BD8D1001_logs']))
+                                      '%08X' % rng.choice(eids + [0x5EEEEEEE]), 'BD8D1001_logs',
+                                      # characters that mean something to pattern matching, not to a directory name
+                                      'pels [site 7]', 'logs[0]', 'a*b q?', '{x,y}', 'back\\slash']))
     files, fattrs = [], []
     for e in eids:
         pel = dirrun.mk_pel(rng, e, plid=rng.choice(PLIDS + [e]), bmc=rng.choice(BMCS), ref=rng.choice(dirrun.REFS + dirrun.REFS + dirrun.REFS_LONG),
